@@ -250,7 +250,9 @@ func (j *jsonReader) getMap() map[string]any {
 	if j.current != nil {
 		return j.current
 	}
-	j.current = j.value[0].(map[string]any)
+	// An element that is not a JSON object (a bare number, string, boolean, null or array) has no tag,
+	// type or value: every read on it fails with an error.
+	j.current, _ = j.value[0].(map[string]any)
 	return j.current
 }
 
@@ -264,8 +266,8 @@ func (j *jsonReader) Type() Type {
 	if ty, ok := typeFromName(typ); ok {
 		return ty
 	}
-	//TODO: return error
-	panic("Invalid type")
+	// Unknown type name: no type. Every typed read then fails with an "Invalid TTLV type" error.
+	return 0
 }
 
 // Tag implements reader.
